@@ -52,6 +52,10 @@ def _write_static_files():
         'constant_first_column.txt': [f'1\t,\t{v}' for v in temps],
         'same_rows_repeated.txt': [f'{t}\t,\t{v}' for t, v in zip(times, temps[:40] + temps[39:-1])],
     }
+    import math
+    files['hourly_temperature.csv'] = ['hour,temperature'] + [
+        f'{h + 1},{9.0 - 13.0 * math.cos(2 * math.pi * (h // 24 - 15) / 365.0) + 4.0 * math.sin(2 * math.pi * (h % 24) / 24.0):.2f}'
+        for h in range(8760)]
     for name, lines in files.items():
         pth = os.path.join(d, name)
         body = '\n'.join(lines) + '\n'
@@ -71,6 +75,7 @@ def _write_static_files():
 def template_init(j=0, refserver=False):
     os.environ.setdefault('MPLBACKEND', 'Agg')
     HW.add_profile_tweaks(_write_static_files())
+    HW.add_dh_tweaks(os.path.join(static_dir(), 'profiles', 'hourly_temperature.csv'))
     if not refserver and os.environ.get('DSIM_NO_REFSERVER') != '1':
         _start_ref_server()      # (first, so that it imports the repository while this process does)
     if not os.environ.get('VERIF_DEBUG'):
@@ -395,6 +400,8 @@ def gen_request(cs, templates, kind=None, allow_slow=False, fail=None, neighbour
 
 
 RESMODEL_FAMILY = ('geo_mpf_small', 'geo_lhs_small', 'geo_sf_sorc', 'geo_tdp_orc', 'example2')
+# district heating with the demand computed from an hourly temperature profile: requests that differ in one option value
+DH_FAMILY = ('dh_example12',)
 
 
 def _gen_request(cs, templates, kind=None, allow_slow=False, fail=None, neighbour_of=None, family=None):
@@ -409,16 +416,20 @@ def _gen_request(cs, templates, kind=None, allow_slow=False, fail=None, neighbou
             tw = HW.neighbour_tweak(cs, templates[ti], _state.get('ranges', {}))
         tweaks = [x for x in neighbour_of['tweaks'] if tw is None or x[0] != tw[0]] + ([tw] if tw else [])
         return {'template': ti, 'tweaks': [tuple(x) for x in tweaks], 'poison': None}
-    pool = [i for i, t in enumerate(templates) if (kind is None or t['kind'] == kind) and (allow_slow or t['cost'] == 'fast')]
+    pool = [i for i, t in enumerate(templates) if (kind is None or t['kind'] == kind)
+            and (t['cost'] == 'fast' or (allow_slow and t['cost'] == 'slow') or (family is DH_FAMILY and t['cost'] == 'dh'))]
     if family and kind != 'hip':
         # a small family of configurations that differ in the reservoir model; one request in three fails INSIDE the calculation
         pool = [i for i in pool if templates[i]['name'] in family] or pool
         if fail is None:
-            fail = cs.choose(3, 'fpoison') == 2
+            fail = cs.choose(3 if family is not DH_FAMILY else 8, 'fpoison') == 2
     ti = pool[cs.choose(len(pool), 'template')]
     t = templates[ti]
     tweaks_tab = HW.HIP_TWEAKS if t['kind'] == 'hip' else HW.GEO_TWEAKS
     tweaks = []
+    if family is DH_FAMILY and t['name'] in DH_FAMILY and HW.DH_TWEAKS:
+        a = cs.choose(len(HW.DH_TWEAKS), 'dhtweak')
+        tweaks.append((HW.DH_TWEAKS[a][0], HW.DH_TWEAKS[a][1][cs.choose(len(HW.DH_TWEAKS[a][1]), 'dhtweakv')]))
     for _ in range(cs.choose(3, 'ntweak')):
         if cs.choose(2, 'tweakkind') == 1:
             tw = HW.neighbour_tweak(cs, t, _state.get('ranges', {}))
@@ -476,7 +487,7 @@ def _layout(s, fmt):
     return '\n'.join(out)
 
 
-THEMES = ['mixed', 'cache', 'paths', 'mixed', 'faults', 'cache', 'hip', 'resmodels']
+THEMES = ['mixed', 'cache', 'paths', 'mixed', 'faults', 'cache', 'hip', 'resmodels', 'mixed', 'cache', 'paths', 'dh']
 
 
 def gen_history(cs, templates, tier, force=None):
@@ -517,14 +528,25 @@ def gen_history(cs, templates, tier, force=None):
         p_neighbour = 0
         fam = RESMODEL_FAMILY
         nops = 6 + cs.choose(5, 'nops_res')
+    elif theme == 'dh':
+        # one configuration family (district heating), 3-5 requests that differ in one option value (the census division, the
+        # number of housing units, the demand option), through a client that computes every time: whatever a request uses up or
+        # leaves selected in a module-level table shows in the next one
+        kinds = ['run'] * 4 + ['rewrite'] * 6
+        entries = ['client'] * 5 + ['main_argv', 'cli', 'client_params']
+        slot_tab = [0, 0, 1]
+        client_tab = [1, 1, 1, 0]
+        p_neighbour = 0
+        fam = DH_FAMILY
+        nops = 3 + cs.choose(3, 'nops_dh')
     elif theme == 'paths':
-        kinds = ['run'] * 6 + ['chdir'] * 3 + ['rewrite', 'argv', 'delete']
+        kinds = ['run'] * 6 + ['chdir'] * 3 + ['rewrite', 'argv', 'delete', 'crashed_run', 'crashed_run']
         entries = ['cli'] * 5 + ['main_argv', 'client', 'hip']
         slot_tab = [0, 0, 1, 2, 3, 3, 4, 5, 6]
         client_tab = [0, 0, 2, 1]
         p_neighbour = 1
     else:
-        kinds = ['run', 'run', 'run', 'run', 'rewrite', 'rewrite', 'rewrite', 'chdir', 'argv', 'clock', 'delete', 'mc']
+        kinds = ['run', 'run', 'run', 'run', 'rewrite', 'rewrite', 'rewrite', 'chdir', 'argv', 'clock', 'delete', 'mc', 'crashed_run']
         entries = ENTRIES
         slot_tab = [0, 0, 0, 1, 2, 4, 5, 6]
         client_tab = [0, 0, 2, 1]
@@ -602,6 +624,23 @@ def gen_history(cs, templates, tier, force=None):
                 continue
             sl = sorted(slots)[cs.choose(len(slots), 'delslot')]
             ops.append({'op': 'delete', 'slot': sl})
+        elif kind == 'crashed_run':
+            # crash and restart: ANOTHER process ran a command in this directory tree and was killed (SIGKILL: nothing unwinds, only
+            # what had reached the kernel survives) at its n-th system call; usually the same command is then run again
+            if not slots:
+                continue
+            geo_slots = [x for x in sorted(slots) if slots[x]['kind'] == 'geo']
+            if not geo_slots:
+                continue
+            sl = geo_slots[cs.choose(len(geo_slots), 'crslot')]
+            entry = ['cli', 'cli', 'client', 'main_argv'][cs.choose(4, 'crentry')]
+            out = OUT_FORMS[cs.choose(len(OUT_FORMS), 'crout')]
+            ops.append({'op': 'crashed_run', 'entry': entry, 'slot': sl, 'out': out, 'client': 1, 'reuse': False, 'defer': False,
+                        'at': [3, 6, 10, 15, 20, 25, 30, 40, 60, 90, 130][cs.choose(11, 'crat')]})
+            if cs.choose(4, 'crrerun') != 0:
+                ops.append({'op': 'run', 'entry': entry, 'slot': sl, 'out': out, 'client': client_tab[cs.choose(len(client_tab), 'client')],
+                            'reuse': False, 'defer': False})
+                nruns += 1
         elif kind == 'mc':
             ops.append({'op': 'mc', 'iterations': 2 + cs.choose(2, 'mcit'), 'W': 1 + cs.choose(2, 'mcw'),
                         'fail': [None, None, None, 'all_iterations', 'no_settings_file'][cs.choose(5, 'mcfail')]})
@@ -709,7 +748,7 @@ def run_one(payload):
                 refs[sha(f'{c[0]}\0{c[1]}')] = reference(c[0], c[1], refdir, stats)
             elif op['op'] == 'delete':
                 contents[op['slot']] = (contents.get(op['slot'], ('geo', ''))[0], None)
-            elif op['op'] == 'run':
+            elif op['op'] in ('run', 'crashed_run'):
                 kd, txt = contents[op['slot']]
                 if op['entry'] == 'client_params' and txt is not None:
                     txt2 = txt + ''.join(f'{a}, {b}\n' for a, b in op['params'].items())
@@ -917,6 +956,8 @@ class Exec:
                 continue
             elif kind == 'mc':
                 self.do_mc(op)
+            elif kind == 'crashed_run':
+                self.do_crashed_run(op)
             elif kind == 'run':
                 self.do_run(op)
             if kind in ('run', 'mc'):
@@ -946,6 +987,53 @@ class Exec:
                 break
 
     # ---- operations ------------------------------------------------------------------
+    def do_crashed_run(self, op):
+        """the command is executed by a real child process forked from this one (same simulated world: seams, clock, sandbox) that
+        disappears with os._exit at its n-th seam event - no finally block runs, no buffer is flushed, no lock is released.  What
+        it did to the file system stays; nothing it did to its own memory is seen by the history."""
+        k = self.k
+        k.record('op:crashed_run', f"{op['entry']} slot{op['slot']} out={op['out']} at +{op['at']}")
+        if self.contents.get(op['slot'], (None, None))[1] is None:
+            return
+        sys.stdout.flush()
+        pid = K._real['os.fork']()
+        if pid == 0:
+            try:
+                target = k.seq + op['at']
+                prev = k.seam_hook
+
+                def hook(kind, detail):
+                    if k.seq >= target:
+                        K._real['os._exit'](9)
+                    if prev is not None:
+                        prev(kind, detail)
+                k.seam_hook = hook
+                k.armed = None
+                self.pending_fault = None
+                self.do_run(dict(op, op='run'))
+            except BaseException:  # noqa: BLE001
+                pass
+            finally:
+                K._real['os._exit'](0)
+        deadline = K._real['time.monotonic']() + 120
+        status = None
+        while K._real['time.monotonic']() < deadline:
+            got, st_ = os.waitpid(pid, os.WNOHANG)
+            if got:
+                status = st_
+                break
+            K._real['time.sleep'](0.01)
+        if status is None:
+            try:
+                K._real['os.kill'](pid, 9)
+            except OSError:
+                pass
+            os.waitpid(pid, 0)
+            raise K.HarnessError('the crashed-run child did not end within 120 s')
+        killed = os.WIFEXITED(status) and os.WEXITSTATUS(status) == 9
+        self.probe('earlier_process_killed_mid_run' if killed else 'earlier_process_finished_before_its_kill_point')
+        k.fault_fired['process_crash'] += 1 if killed else 0
+
     def expected(self, kd, txt):
         return self.refs[sha(f'{kd}\0{txt}')]
 
